@@ -98,6 +98,40 @@ def dedupS : List String → List String
   | [] => []
   | k :: ks => if (dedupS ks).contains k then dedupS ks else k :: dedupS ks
 
+/-- the arguments passed validation: run the body on what they delivered, check the return value -/
+def finishCall (ev : V → PyVal → Res) (s : SigM) (body : List PyVal → List (String × PyVal) → BodyRes)
+    (okArgs : List PyVal) (okKw : List (String × PyVal)) : CallOut × Option (List PyVal × List (String × PyVal)) :=
+  match body okArgs okKw with
+  | .exc id => (.bodyRaised id, some (okArgs, okKw))
+  | .ret v =>
+    match s.ret with
+    | none => (.returned v, some (okArgs, okKw))
+    | some rv =>
+      match ev rv v with
+      | none => (.fuel, some (okArgs, okKw))
+      | some (.valid _, _) => (.returned v, some (okArgs, okKw))
+      | some (.invalid _, _) => (.invalidReturn, some (okArgs, okKw))
+      | some (.raised e, _) => (.validationRaised e, some (okArgs, okKw))
+
+def SlotRes.raisedOf : SlotRes → Option Exn
+  | .raised e => some e
+  | _ => none
+def SlotRes.isFuel : SlotRes → Bool
+  | .fuel => true
+  | _ => false
+def SlotRes.passVal : SlotRes → Option PyVal
+  | .pass w => some w
+  | _ => none
+/-- the key under which a failing slot is reported -/
+def failKey (p : Slot × SlotRes) : Option String :=
+  match p.2 with
+  | .fail => some p.1.key
+  | _ => none
+def passKw (p : Slot × SlotRes) : Option (String × PyVal) :=
+  match p.2 with
+  | .pass w => some (p.1.key, w)
+  | _ => none
+
 /-- the decorated function -/
 def wrapCall (ev : V → PyVal → Res) (s : SigM) (body : List PyVal → List (String × PyVal) → BodyRes)
     (c : Call) : CallOut × Option (List PyVal × List (String × PyVal)) :=
@@ -106,26 +140,13 @@ def wrapCall (ev : V → PyVal → Res) (s : SigM) (body : List PyVal → List (
   let pr := ps.map (checkSlot ev)
   let kr := ks.map (checkSlot ev)
   let all := pr ++ kr
-  match all.findSome? (fun r => match r with | .raised e => some e | _ => none) with
+  match all.findSome? SlotRes.raisedOf with
   | some e => (.validationRaised e, none)
   | none =>
-    if all.any (fun r => match r with | .fuel => true | _ => false) then (.fuel, none)
+    if all.any SlotRes.isFuel then (.fuel, none)
     else
-      let failing := ((ps ++ ks).zip all).filterMap (fun (sl, r) => match r with | .fail => some sl.key | _ => none)
+      let failing := ((ps ++ ks).zip all).filterMap failKey
       if !failing.isEmpty then (.invalidArgs (dedupS failing.reverse).reverse, none)
-      else
-        let okArgs := pr.filterMap (fun r => match r with | .pass w => some w | _ => none)
-        let okKw := (ks.zip kr).filterMap (fun (sl, r) => match r with | .pass w => some (sl.key, w) | _ => none)
-        match body okArgs okKw with
-        | .exc id => (.bodyRaised id, some (okArgs, okKw))
-        | .ret v =>
-          match s.ret with
-          | none => (.returned v, some (okArgs, okKw))
-          | some rv =>
-            match ev rv v with
-            | none => (.fuel, some (okArgs, okKw))
-            | some (.valid _, _) => (.returned v, some (okArgs, okKw))
-            | some (.invalid _, _) => (.invalidReturn, some (okArgs, okKw))
-            | some (.raised e, _) => (.validationRaised e, some (okArgs, okKw))
+      else finishCall ev s body (pr.filterMap SlotRes.passVal) ((ks.zip kr).filterMap passKw)
 
 end Koda
